@@ -55,8 +55,21 @@ def run(ctx):
     fns = fb.find(pred=lambda f: is_epoch(f) and f.has_cfg())
     ctx.floor("C09.fns", len(fns), 9, "Epoch member functions")
     n_enter = n_leave = n_tick = n_scan = 0
+    # helpers of Epoch are part of the function that calls them (extracting the slot publication into a member must not
+    # change the verdict) and are then not analysed on their own; the public protocol steps, which also call each other
+    # (lock() -> lock(index)), are rule subjects of their own and stay calls
+    igs = {}
+    absorbed = set()
     for fn in fns:
-        ig = IG(fn, inline=lambda a, b, c: False)
+        ig = IG(fn, inline=lambda fr, ev, callee, root=fn: callee.record == root.record and not callee.lambda_ and
+                callee.name not in ("lock", "unlock", "tick", "low_water_mark"))
+        igs[fn.key] = ig
+        for fr in ig.frames[1:]:
+            absorbed.add(fr.fn.key)
+    for fn in fns:
+        if fn.key in absorbed:
+            continue
+        ig = igs[fn.key]
         live = ig.live_nodes()
         inst = L.short(fn)
         sv = ops_on(ig, live, SLOT_VERSION)
